@@ -459,6 +459,7 @@ func init() {
 		Rule: "case = one normal-form history (5-14 versions incl. empty versions and commits without writes; 1-10 keys) (every 4th case: 32 keys written once, then versions touching one hot key plus removals of keys that are not there) written by a v2 tree over on-disk SQLite (checkpoint interval from {1,2,3,7}, HeightFilter{0,1}, EvictionDepth{-1,1,8}, ShardTrees{off,on}; combination = case index mod 48) and then closed. " +
 			"(reload) for EVERY version t the database is reopened by a fresh tree and LoadVersion(t) must succeed with Version()=t, the root hash returned at commit, Size, Get of every probe key and full iteration equal to the model of t - targets fall on, just after and far after a checkpoint (the root table tells which; counted per class). (continue-older) for a random older version t (and an older version with an empty tree, if any) a copy of the store is reopened at t and the recorded write sets of t+1..latest are applied again: every commit must return the version number and hash of the uninterrupted run. (continue) from the reloaded latest version 2-3 further write sets are committed and every hash must equal the reference tree continuing the uninterrupted history; then the continued store is reloaded again. " +
 			"(prune) on a copy of the store DeleteVersionsTo(n) for a random n is issued, the harness waits (bounded polling of the root table; not draining within the bound is INCONCLUSIVE, not a violation) and commits one more version, closes and reopens: the latest version and every version at or above the last checkpoint not after n must load with the right hash and contents. (snapshot) SaveSnapshot at the latest version, then LoadSnapshot(version, PreOrder) on a fresh tree: root hash and contents must equal the source version. (locked commit, every 2nd case) one further version is committed while a second SQLite connection holds the write lock of changelog.sqlite or tree.sqlite: if SaveVersion acknowledges the commit the version must reload exactly after close and reopen (if it reports the failure only the earlier versions are checked). " +
+			"(prune + close, every 4th case) six times on a copy of the store: DeleteVersionsTo(n) directly followed by Close() - the process must survive and the latest version must reload exactly. " +
 			"(big prune, every 32nd case) 3000 keys, versions of 300 updates, checkpoint interval 5, HeightFilter{0,1} x ShardTrees{off,on}: DeleteVersionsTo(11) is filed after version 15 and the history goes on at once with version 16 - a checkpoint, whose save interrupts the prune that is still running (observed and counted through the root rows below the target that are still present right after that commit; in one of four: filed after version 11, then two reads of all keys and five commits at once) - then pruning drains, one more commit, close, reopen: versions 11, 12, 14, 15, 16, 17 must reload with the right hash and all 3000 values; the process must survive the overlap. " +
 			"distinct = hash(options, write sets); non-trivial = >=1 reload of a non-checkpoint version and >=1 continued commit.",
 		Assumptions: []string{"M and R as oracles; the root table is read directly (read-only SQLite connection) to classify load targets and to detect the end of background pruning", "continuation is judged from the latest version (re-committing an existing v2 version is not part of the property)"},
@@ -607,6 +608,37 @@ func init() {
 					pruneAndReload(c, x, cfg, pdir, rows, hist)
 				}
 				os.RemoveAll(pdir)
+			}
+			// ---- prune request directly followed by Close (shutdown right after requesting a prune) ----
+			if latest >= 3 && c.Index%4 == 2 && len(c.Res.Violations) == 0 {
+				for round := 0; round < 6 && len(c.Res.Violations) == 0; round++ {
+					qdir := dir + "-pclose"
+					os.RemoveAll(qdir)
+					if err := copyDir(dir, qdir); err != nil {
+						break
+					}
+					if hq, err := openV2(qdir, cfg); err == nil {
+						if err := hq.tree.LoadVersion(latest); err == nil {
+							n := int64(1 + rng.Intn(int(latest-1)))
+							if err := hq.tree.DeleteVersionsTo(n); err != nil {
+								c.Violate(int(n), "v2p|prune-close|error", "DeleteVersionsTo(%d): %v; %s", n, err, hist)
+							}
+							hq.close() // at once: the process must survive, the store must reopen
+							c.Obs("v2_prune_requests_directly_followed_by_close", 1)
+							if h3, err := openV2(qdir, cfg); err == nil {
+								if err := h3.tree.LoadVersion(latest); err != nil {
+									c.Violate(int(latest), "v2p|prune-close|load-error", "LoadVersion(%d) after DeleteVersionsTo(%d) + Close(): %v; %s", latest, n, err, hist)
+								} else {
+									checkLoaded(c, h3.tree, latest, x.M.Vers[latest], x.hashes[latest], x.universe, "prune-close", hist)
+								}
+								h3.close()
+							}
+						} else {
+							hq.close()
+						}
+					}
+					os.RemoveAll(qdir)
+				}
 			}
 			// ---- snapshot ----
 			if len(c.Res.Violations) == 0 {
